@@ -213,8 +213,19 @@ def proof_tree_generator_bfs(rules_dict: RulesDict, root: int) -> Iterator[Node]
         start: tuple(sorted(ends)) for start, ends in rules_dict.items()
     }
 
+    def _one_rule_per_label(tree: Node) -> bool:
+        # Sibling subtrees are built independently of each other, so the same
+        # label can be expanded with different rules in two of them.
+        chosen: Dict[int, Tuple[int, ...]] = {}
+        for node in tree.nodes():
+            if node.children:
+                rule = tuple(child.label for child in node.children)
+                if chosen.setdefault(node.label, rule) != rule:
+                    return False
+        return True
+
     if root in sorted_rules_dict:
-        yield from _bfs_helper(root, frozenset())
+        yield from filter(_one_rule_per_label, _bfs_helper(root, frozenset()))
 
 
 def proof_tree_generator_dfs(
